@@ -316,3 +316,40 @@ impl PayloadSnapshot {
 pub assume_specification<'a, T> [<std::slice::Iter<'a, T> as Iterator>::count] (it: std::slice::Iter<'a, T>) -> (r: usize)
     ensures it.will_return_none(), r == it.remaining().len(),
 ;
+
+// std: provided `Iterator` methods that Verus cannot be given a specification for (it rejects
+// assume_specification for provided trait methods). Rewrite R18 (unit.json "envcalls") turns
+// `x.eq(y)`, `x.ne(y)`, `x.count()` into these functions. ASSUMED (std semantics): `eq` is true only if
+// both iterators were run to completion and yielded equally many, pairwise == items; `count` runs the
+// iterator to completion and returns the number of items. (What a `false` result of `eq` implies about
+// the prophetic `remaining()` sequences is left unspecified.)
+#[verifier::external_body]
+pub fn iter_eq<A: Iterator, B: Iterator>(a: A, b: B) -> (r: bool)
+    where A::Item: PartialEq<B::Item>
+    ensures
+        r && a.obeys_prophetic_iter_laws() && b.obeys_prophetic_iter_laws() ==> {
+            &&& a.will_return_none() && b.will_return_none()
+            &&& a.remaining().len() == b.remaining().len()
+            &&& <A::Item as PartialEqSpec<B::Item>>::obeys_eq_spec() ==>
+                    forall|k: int| 0 <= k < a.remaining().len() ==>
+                        (#[trigger] a.remaining()[k]).eq_spec(&b.remaining()[k])
+        },
+{ unimplemented!() }
+
+#[verifier::external_body]
+pub fn iter_ne<A: Iterator, B: Iterator>(a: A, b: B) -> (r: bool)
+    where A::Item: PartialEq<B::Item>
+    ensures
+        !r && a.obeys_prophetic_iter_laws() && b.obeys_prophetic_iter_laws() ==> {
+            &&& a.will_return_none() && b.will_return_none()
+            &&& a.remaining().len() == b.remaining().len()
+            &&& <A::Item as PartialEqSpec<B::Item>>::obeys_eq_spec() ==>
+                    forall|k: int| 0 <= k < a.remaining().len() ==>
+                        (#[trigger] a.remaining()[k]).eq_spec(&b.remaining()[k])
+        },
+{ unimplemented!() }
+
+#[verifier::external_body]
+pub fn iter_count<A: Iterator>(a: A) -> (r: usize)
+    ensures a.obeys_prophetic_iter_laws() ==> a.will_return_none() && r == a.remaining().len(),
+{ unimplemented!() }
